@@ -37,16 +37,24 @@ def _on_alarm(signum, frame):
 
 
 class deadline:
-    """with deadline(seconds): ... raises CaseTimeout inside the block (wall-clock watchdog, inconclusive)."""
+    """
+    with deadline(seconds): ... raises CaseTimeout inside the block (watchdog; a timeout is inconclusive, never a verdict).
+    The limit is `seconds` of CPU time of this process (ITIMER_PROF), so that a loaded machine does not turn slow-but-fine cases into time-outs,
+    with a wall-clock fallback at 4x for code that waits instead of computing.
+    """
     def __init__(self, seconds):
         self.seconds = seconds
 
     def __enter__(self):
         self.old = signal.signal(signal.SIGALRM, _on_alarm)
-        signal.setitimer(signal.ITIMER_REAL, self.seconds)
+        self.oldp = signal.signal(signal.SIGPROF, _on_alarm)
+        signal.setitimer(signal.ITIMER_REAL, self.seconds * 4)
+        signal.setitimer(signal.ITIMER_PROF, self.seconds)
 
     def __exit__(self, *exc):
+        signal.setitimer(signal.ITIMER_PROF, 0)
         signal.setitimer(signal.ITIMER_REAL, 0)
+        signal.signal(signal.SIGPROF, self.oldp)
         signal.signal(signal.SIGALRM, self.old)
         return False
 
